@@ -534,6 +534,17 @@ impl CelValue {
         })
     }
 
+    /// Result of a checked integer operation: the value, or an overflow error.
+    fn checked_int_result<T: Into<CelValue>>(val: Option<T>, op: &str) -> CelValue {
+        match val {
+            Some(v) => v.into(),
+            None => CelValue::from_err(CelError::value(&format!(
+                "Integer overflow in '{}'",
+                op
+            ))),
+        }
+    }
+
     #[inline]
     fn error_prop_or<F>(self, rhs: CelValue, f: F) -> CelValue
     where
@@ -1241,12 +1252,12 @@ impl Add for CelValue {
             match lhs {
                 CelValue::Int(val1) => {
                     if let CelValue::Int(val2) = rhs {
-                        return CelValue::from(val1 + val2);
+                        return CelValue::checked_int_result(val1.checked_add(val2), "+");
                     }
                 }
                 CelValue::UInt(val1) => {
                     if let CelValue::UInt(val2) = rhs {
-                        return CelValue::from(val1 + val2);
+                        return CelValue::checked_int_result(val1.checked_add(val2), "+");
                     }
                 }
                 CelValue::Float(val1) => {
@@ -1313,12 +1324,12 @@ impl Sub for CelValue {
             match lhs {
                 CelValue::Int(val1) => {
                     if let CelValue::Int(val2) = rhs {
-                        return CelValue::from(val1 - val2);
+                        return CelValue::checked_int_result(val1.checked_sub(val2), "-");
                     }
                 }
                 CelValue::UInt(val1) => {
                     if let CelValue::UInt(val2) = rhs {
-                        return CelValue::from(val1 - val2);
+                        return CelValue::checked_int_result(val1.checked_sub(val2), "-");
                     }
                 }
                 CelValue::Float(val1) => {
@@ -1364,12 +1375,12 @@ impl Mul for CelValue {
             match lhs {
                 CelValue::Int(val1) => {
                     if let CelValue::Int(val2) = rhs {
-                        return CelValue::from(val1 * val2);
+                        return CelValue::checked_int_result(val1.checked_mul(val2), "*");
                     }
                 }
                 CelValue::UInt(val1) => {
                     if let CelValue::UInt(val2) = rhs {
-                        return CelValue::from(val1 * val2);
+                        return CelValue::checked_int_result(val1.checked_mul(val2), "*");
                     }
                 }
                 CelValue::Float(val1) => {
@@ -1409,7 +1420,7 @@ impl Div for CelValue {
                             return CelValue::from_err(CelError::DivideByZero);
                         }
 
-                        return CelValue::from(val1 / val2);
+                        return CelValue::checked_int_result(val1.checked_div(val2), "/");
                     }
                 }
                 CelValue::UInt(val1) => {
@@ -1454,11 +1465,20 @@ impl Rem for CelValue {
             match lhs {
                 CelValue::Int(val1) => {
                     if let CelValue::Int(val2) = rhs {
-                        return CelValue::from(val1 % val2);
+                        if val2 == 0 {
+                            return CelValue::from_err(CelError::DivideByZero);
+                        }
+
+                        // i64::MIN % -1 is 0; wrapping_rem avoids the overflow trap
+                        return CelValue::from(val1.wrapping_rem(val2));
                     }
                 }
                 CelValue::UInt(val1) => {
                     if let CelValue::UInt(val2) = rhs {
+                        if val2 == 0 {
+                            return CelValue::from_err(CelError::DivideByZero);
+                        }
+
                         return CelValue::from(val1 % val2);
                     }
                 }
@@ -1485,7 +1505,7 @@ impl Neg for CelValue {
 
         match self {
             CelValue::Int(val1) => {
-                return CelValue::from(-val1);
+                return CelValue::checked_int_result(val1.checked_neg(), "-");
             }
             CelValue::Float(val1) => {
                 return CelValue::from(-val1);
